@@ -14,6 +14,7 @@ import (
 	"github.com/gotd/td/mt"
 	"github.com/gotd/td/mtproto"
 	"github.com/gotd/td/proto"
+	"github.com/gotd/td/tgerr"
 
 	"verif/dst"
 	"verif/simrt"
@@ -261,6 +262,126 @@ func runC23(t *testing.T, tape *simrt.Tape, env dst.Env) *simrt.Outcome {
 					}
 				}
 			}
+			return nil
+		})
+		simrt.Recv(0, done)
+	})
+}
+
+// ---- C24 (connection level) ---------------------------------------------------------------
+//
+// The engine-level interleavings of C24 are world rpc's; here the same
+// statement is checked where results enter: mtproto.Conn.handleResult. Every
+// call is answered in one of the forms a server uses (plain, gzip-packed,
+// inside a container; a value or an RPC error), mixed with duplicates and
+// answers for ids nobody waits for, and must return exactly what was
+// addressed to it.
+func runC24(t *testing.T, tape *simrt.Tape, env dst.Env) *simrt.Outcome {
+	return simrt.Run(t, tape, simrt.Options{Policy: -1}, func(s *simrt.Sim) {
+		viol := func(rule, sig, format string, args ...any) { simrt.Violate("C24", rule, sig, format, args...) }
+		fx := newFixture(tape, func(o *mtproto.Options) { o.RetryInterval = 30 * time.Second })
+		type answer struct {
+			isErr bool
+			value int64
+			code  int
+			msg   string
+			form  string
+			dup   bool // a second, different result (-2) is sent for the same id
+		}
+		plan := map[int64]*answer{} // tag -> what the server answers
+		fx.srv.onMsg = func(m *clientMsg) {
+			tag, ok := reqTag(m.body)
+			if !ok {
+				return
+			}
+			a := plan[tag]
+			if a == nil {
+				return
+			}
+			body := respBody(a.value)
+			if a.isErr {
+				body = enc(&mt.RPCError{ErrorCode: a.code, ErrorMessage: a.msg})
+			}
+			if tape.Coin(simrt.Wl, 1, 2) {
+				body = enc(proto.GZIP{Data: body})
+				a.form += " gzip-packed"
+			}
+			res := fx.srv.result(m.msgID, body)
+			if tape.Coin(simrt.Wl, 1, 3) {
+				var b bin.Buffer
+				b.PutID(proto.MessageContainerTypeID)
+				b.PutInt(1)
+				b.PutLong(fx.srv.newID(1))
+				b.PutInt(1)
+				b.PutInt(len(res))
+				b.Put(res)
+				res = b.Buf
+				a.form += " in a container"
+			}
+			d := time.Duration(tape.Choose(simrt.Net, 3)) * 50 * time.Millisecond
+			id := m.msgID
+			simrt.Go("answer", func() {
+				simrt.Sleep(0, d)
+				if tape.Coin(simrt.Wl, 1, 2) {
+					fx.srv.send(enc(&mt.MsgsAck{MsgIDs: []int64{id}}), sendOpt{tag: "ack", noFaults: true})
+				}
+				if tape.Coin(simrt.Fault, 1, 4) {
+					// an answer for an id nobody waits for
+					fx.srv.send(fx.srv.result(id-3600<<32, respBody(-1)), sendOpt{content: true, tag: "result for a foreign id", noFaults: true})
+				}
+				fx.srv.send(res, sendOpt{content: true, tag: fmt.Sprintf("answer tag %d:%s", tag, a.form), noFaults: true})
+				if a.dup {
+					// a second answer to the same id: each frame is handled by its own
+					// task, so either of the two may be the one the call completes with
+					fx.srv.send(fx.srv.result(id, respBody(-2)), sendOpt{content: true, tag: "second result for the same id", noFaults: true})
+				}
+			})
+		}
+		ctx, cancel := context.WithCancel(context.Background())
+		defer cancel()
+		done := fx.runConn(ctx, func(ctx context.Context) error {
+			n := 1 + tape.Choose(simrt.Wl, 4)
+			fin := make(chan struct{}, n)
+			for i := 0; i < n; i++ {
+				tag := int64(40 + i)
+				a := &answer{value: 7000 + tag, dup: tape.Coin(simrt.Fault, 1, 4)}
+				if tape.Coin(simrt.Wl, 1, 2) {
+					a.isErr, a.code = true, simrt.Pick(tape, simrt.Wl, 400, 401, 420, 500)
+					a.msg = simrt.Pick(tape, simrt.Wl, "FLOOD_WAIT_17", "PEER_ID_INVALID", "AUTH_KEY_UNREGISTERED", "X_5_Y")
+					a.form = "rpc_error"
+				} else {
+					a.form = "result"
+				}
+				plan[tag] = a
+				simrt.Go(fmt.Sprintf("invoke%d", tag), func() {
+					defer simrt.Send(0, fin, struct{}{})
+					cctx, cc := context.WithTimeout(ctx, 20*time.Second)
+					defer cc()
+					out := &tagResp{}
+					err := fx.conn.Invoke(cctx, tagReq{tag}, out)
+					simrt.Ev("invoke-return", "tag=%d err=%v got=%v", tag, err, out.got)
+					if a.dup && err == nil && len(out.got) == 1 && out.got[0] == -2 {
+						return // completed with the second answer: equally its own
+					}
+					if a.isErr {
+						re, ok := tgerr.As(err)
+						if !ok || re.Code != a.code || re.Message != a.msg {
+							viol("C24.wrong-completion", "wrong-completion"+a.form, "call %d was answered with rpc_error %d %q (%s) and returned %v", tag, a.code, a.msg, a.form, err)
+						}
+						if len(out.got) != 0 {
+							viol("C24.wrong-completion", "output-written-on-error", "call %d was answered with an rpc_error, yet its output was written: %v", tag, out.got)
+						}
+						return
+					}
+					if err != nil || len(out.got) != 1 || out.got[0] != a.value {
+						viol("C24.wrong-completion", "wrong-completion"+a.form, "call %d was answered with value %d (%s) and returned err=%v output=%v", tag, a.value, a.form, err, out.got)
+					}
+				})
+			}
+			for i := 0; i < n; i++ {
+				simrt.Recv(0, fin)
+			}
+			simrt.Sleep(0, 200*time.Millisecond)
 			return nil
 		})
 		simrt.Recv(0, done)
